@@ -700,7 +700,7 @@ func (c *Check) ruleGenesisAtHeightZero(rule string, a *repoAnchors) {
 				"the genesis header of an empty store is registered in the hash->height map under a height that is not the constant 0 (the height was not set to 0 on this path): every height reported afterwards is shifted")
 		}
 	}
-	c.Min(rule, "genesis registrations", n, 3)
+	c.Min(rule, "genesis registrations", n, 1)
 }
 
 // ---------------------------------------------------------------------------------------------
